@@ -99,7 +99,7 @@ def ca_outer(v, old, le_):
     ] + md_clauses(v, old, i)
 
 
-def buffer_clauses(n_train, k, dist, nb, slot, m, j_bound, wfun, excl=None):
+def buffer_clauses(n_train, k, dist, nb, slot, m, j_bound, wfun, excl=None, stable=False):
     """the k-nearest buffer after the training samples < j_bound (other than `excl`) have been offered; m real
     entries; wfun(t) = weight between the sample being processed and training sample t"""
     ok = (lambda t: True) if excl is None else (lambda t: ne(t, excl))
@@ -113,7 +113,13 @@ def buffer_clauses(n_train, k, dist, nb, slot, m, j_bound, wfun, excl=None):
             le(0, slot[t]), le(slot[t], k),
             implies(lt(slot[t], m), eq(nb[slot[t]], t)),
             implies(ge(slot[t], m), conj(eq(m, k), le(dist[k - 1], wfun(t)))))))),
-    ]
+    ] + ([] if not stable else [
+        # tie policy of the strict bubble: equally distant samples stay in index order, and a sample outside the full
+        # buffer is lexicographically after the last entry in (distance, index)
+        ("tie_stable", forall(0, m, lambda r, s: implies(conj(lt(r, s), eq(dist[r], dist[s])), lt(nb[r], nb[s])))),
+        ("tie_outside_after", forall(0, j_bound, lambda t: implies(conj(ok(t), ge(slot[t], m), eq(dist[k - 1], wfun(t))),
+                                                               lt(nb[k - 1], t)))),
+    ])
 
 
 def buffer_inv(v, old, j_bound, m):
@@ -121,7 +127,7 @@ def buffer_inv(v, old, j_bound, m):
                           lambda t: WS(v, v.i, t), v.i)
 
 
-def bubble_clauses(k, c, dist, nb, d0, nb0, new_index, w_expected):
+def bubble_clauses(k, c, dist, nb, d0, nb0, new_index, w_expected, strict=False):
     """insertion step relative to the buffer at the start of the bubble (d0, nb0): the new pair travels down"""
     w = d0[k]
     return [
@@ -129,7 +135,7 @@ def bubble_clauses(k, c, dist, nb, d0, nb0, new_index, w_expected):
         ("new", conj(eq(w, w_expected), eq(nb0[k], new_index), eq(dist[c], w), eq(nb[c], new_index))),
         ("below", forall(0, c, lambda r: conj(eq(dist[r], d0[r]), eq(nb[r], nb0[r])))),
         ("shifted", forall(c + 1, k + 1, lambda r: conj(eq(dist[r], d0[r - 1]), eq(nb[r], nb0[r - 1]), le(w, dist[r])))),
-    ]
+    ] + ([("tie_shifted_strict", forall(c + 1, k + 1, lambda r: lt(w, dist[r])))] if strict else [])
 
 
 def ca_scan(v, old, le_):
